@@ -9,6 +9,10 @@ CHECKS = {
          "refmon",
          "Runs the real GenerateIndexes/HashIndex/ValidateParallelismSpec/GetParallelStatus/NewPod on withCount 1..N (exhaustive) and on seeded withKeys/withMatrix specs and compares with an independent expansion; accepted specs must have pairwise distinct indexes, hashes, task names and status slots and Pods carrying their own index values. Held on the inputs explored, not a proof.",
          "hashstructure is the definition of the raw hash; ValidateParallelismSpec is taken as the admission decision.", "6/C14"),
+ "C18": ("exploration", "reference-model monitor: real EvaluateOptions / Mutator.MutateCreateJob / NewPod vs independent evaluator and single-pass substituter; determinism by repeated execution",
+         "refmon",
+         "Generated option specs (all five types), value maps (missing/null/wrong-typed/custom/'${..}'), overlapping explicit substitutions and task templates are run through the real option evaluation, the real configName admission path and NewPod; accepted outputs must satisfy per-type constraint predicates, equal the JobConfig default when no value was given, follow the source precedence, blank unknown reserved-prefix variables, leave other text untouched and be identical over 20 repeated calls. Held on the inputs explored.",
+         "goment/time.Parse trusted for Date; exact text comparison only where sequential and single-pass substitution semantics coincide (no '$','{','}' in substituted values, no nested variables), determinism/totality always.", "6/C18"),
 }
 
 NOT_YET = {
